@@ -155,70 +155,126 @@ theorem store_reads_written_prefix : Gen.SmtFacts.readOnlyReadsPrefix = Gen.SmtF
 
 /-- the verifier rejects every corpus scenario of part A (and still accepts the honest statements) -/
 theorem fixed_rejects_witnesses :
-    verifyFixed idH (h4 idH) 4 (uk4 1) [] false (root4 [11, 1]) (prove (h4 idH) (tree4 [11, 1]) (k4 11)) = .reject
-    ∧ verifyFixed idH (h4 idH) 4 (uk4 6) [5] true (root4 [5, 6]) (prove (h4 idH) (tree4 [5, 6]) (k4 5)) = .reject
-    ∧ verifyFixed idH (h4 idH) 4 (uk4 1) [] false (root4 [4, 11, 1]) (prove (h4 idH) (tree4 [4, 11, 1]) (k4 11)) = .reject
-    ∧ verifyFixed idH (h4 idH) 4 (uk4 11) [11] true [] [⟨encodeKey (k4 11), [11], 0⟩, ⟨[], [], 0⟩] = .errInvalidProof
-    ∧ verifyFixed idH (h4 idH) 4 (uk4 11) [11] true [] [⟨[5], [11], 0⟩, ⟨encodeKey (k4 1), [], 0⟩] = .errInvalidProof
-    ∧ verifyFixed idH (h4 idH) 4 (uk4 11) [11] true (root4 [4, 11, 1]) (prove (h4 idH) (tree4 [4, 11, 1]) (k4 11)) = .accept
-    ∧ verifyFixed idH (h4 idH) 4 (uk4 9) [] false (root4 [4, 11, 1]) (prove (h4 idH) (tree4 [4, 11, 1]) (k4 9)) = .accept := by
+    verifyFixed false idH (h4 idH) 4 (uk4 1) [] false (root4 [11, 1]) (prove (h4 idH) (tree4 [11, 1]) (k4 11)) = .reject
+    ∧ verifyFixed false idH (h4 idH) 4 (uk4 6) [5] true (root4 [5, 6]) (prove (h4 idH) (tree4 [5, 6]) (k4 5)) = .reject
+    ∧ verifyFixed false idH (h4 idH) 4 (uk4 1) [] false (root4 [4, 11, 1]) (prove (h4 idH) (tree4 [4, 11, 1]) (k4 11)) = .reject
+    ∧ verifyFixed false idH (h4 idH) 4 (uk4 11) [11] true [] [⟨encodeKey (k4 11), [11], 0⟩, ⟨[], [], 0⟩] = .errInvalidProof
+    ∧ verifyFixed false idH (h4 idH) 4 (uk4 11) [11] true [] [⟨[5], [11], 0⟩, ⟨encodeKey (k4 1), [], 0⟩] = .errInvalidProof
+    ∧ verifyFixed false idH (h4 idH) 4 (uk4 11) [11] true (root4 [4, 11, 1]) (prove (h4 idH) (tree4 [4, 11, 1]) (k4 11)) = .accept
+    ∧ verifyFixed false idH (h4 idH) 4 (uk4 9) [] false (root4 [4, 11, 1]) (prove (h4 idH) (tree4 [4, 11, 1]) (k4 9)) = .accept := by
   decide +kernel
 
 /-- **The verifier is sound** — for every key length, tree, key, value and EVERY proof (honest, for another key,
 truncated, re-ordered, bit-flipped, malformed): an accepted statement is true. The only hypothesis beyond canonical form
 is the hash idealisation, stated explicitly: `H4Inj H4`, the node hash is injective on its 4-tuple. -/
-theorem fixed_sound (H : Bytes → Bytes) {H4 : Bytes → Bytes → Bytes → Bytes → Bytes} (hH : H4Inj H4) {n : Nat}
-    (hn : 0 < n) : Sound (verifyFixed H H4 n) H H4 n := by
+theorem fixed_sound (strict : Bool) (H : Bytes → Bytes) {H4 : Bytes → Bytes → Bytes → Bytes → Bytes} (hH : H4Inj H4)
+    {n : Nat} (hn : 0 < n) : Sound (verifyFixed strict H H4 n) H H4 n := by
   intro t S userKey value membership proof hrep hs hacc
-  exact verifyFixed_sound H H4 hH hn hrep hs userKey value membership proof hacc
+  exact verifyFixed_sound strict H H4 hH hn hrep hs userKey value membership proof hacc
 
 /-- non-vacuity of `fixed_sound`: the hypothesis is satisfiable (by the framed node hash of Proof/SmtHash.lean), and with
 it the verifier does accept honest proofs — the conclusion is not reached by never accepting. (The node hash the code
 uses, `h4 H`, hashes an unframed concatenation and cannot itself be injective on 4-tuples; `H4Inj` is the idealisation
 "collision-free and unambiguous on the tuples that occur", see C08.) -/
-example : Sound (verifyFixed idH framed4 4) idH framed4 4 ∧
-    verifyFixed idH framed4 4 (uk4 11) [11] true ((tree4 [4, 11, 1]).value framed4)
+example : Sound (verifyFixed false idH framed4 4) idH framed4 4 ∧
+    verifyFixed false idH framed4 4 (uk4 11) [11] true ((tree4 [4, 11, 1]).value framed4)
       (prove framed4 (tree4 [4, 11, 1]) (k4 11)) = .accept ∧
-    verifyFixed idH framed4 4 (uk4 1) [] false ((tree4 [4, 11, 1]).value framed4)
+    verifyFixed false idH framed4 4 (uk4 1) [] false ((tree4 [4, 11, 1]).value framed4)
       (prove framed4 (tree4 [4, 11, 1]) (k4 11)) = .reject :=
-  ⟨fixed_sound idH H4Inj_satisfiable (by decide), by decide +kernel, by decide +kernel⟩
+  ⟨fixed_sound false idH H4Inj_satisfiable (by decide), by decide +kernel, by decide +kernel⟩
 
 /-- **The verifier is complete at the tree level**: the proof `GetMerkleProof` produces for a non-reserved key
 verifies against the root — membership with the stored value if the key is present, non-membership if it is absent.
 (No hash hypothesis.) -/
-theorem fixed_complete (H : Bytes → Bytes) (H4 : Bytes → Bytes → Bytes → Bytes → Bytes) {n : Nat} (hn : 0 < n)
-    {t : Trie} {S : KMap}
-    (h : t.Rep n S) (hs : S.HasSentinels n) (userKey value : Bytes)
+theorem fixed_complete (strict : Bool) (H : Bytes → Bytes) (H4 : Bytes → Bytes → Bytes → Bytes → Bytes) {n : Nat}
+    (hn : 0 < n) {t : Trie} {S : KMap}
+    (h : t.Rep n S) (hs : S.HasSentinels n) (hz : strict = true → WellSized H4 n S) (userKey value : Bytes)
     (hres : keyOfBytes n (H userKey) ≠ rootKey n ∧ keyOfBytes n (H userKey) ≠ minKey n ∧
       keyOfBytes n (H userKey) ≠ maxKey n) :
     (S (keyOfBytes n (H userKey)) = some (H value) →
-      verifyFixed H H4 n userKey value true (t.value H4) (prove H4 t (keyOfBytes n (H userKey))) = .accept) ∧
+      verifyFixed strict H H4 n userKey value true (t.value H4) (prove H4 t (keyOfBytes n (H userKey))) = .accept) ∧
     (S (keyOfBytes n (H userKey)) = none →
-      verifyFixed H H4 n userKey value false (t.value H4) (prove H4 t (keyOfBytes n (H userKey))) = .accept) :=
-  verifyFixed_complete H H4 hn h hs userKey value hres
+      verifyFixed strict H H4 n userKey value false (t.value H4) (prove H4 t (keyOfBytes n (H userKey))) = .accept) :=
+  verifyFixed_complete strict H H4 hn h hs hz userKey value hres
 
 /-- **Store-level completeness**, with the prefixes the source has now: the tree `NewReadOnly(v)` serves proofs from is
 the tree committed for `v`, so the proof it serves for any non-reserved key verifies against the root committed for `v`
 (production key length 160). -/
-theorem store_complete (H : Bytes → Bytes) (H4 : Bytes → Bytes → Bytes → Bytes → Bytes) {committed : Trie} {S : KMap}
-    (h : committed.Rep 160 S) (hs : S.HasSentinels 160) (userKey value : Bytes)
+theorem store_complete (strict : Bool) (H : Bytes → Bytes) (H4 : Bytes → Bytes → Bytes → Bytes → Bytes) {committed : Trie}
+    {S : KMap} (h : committed.Rep 160 S) (hs : S.HasSentinels 160) (hz : strict = true → WellSized H4 160 S)
+    (userKey value : Bytes)
     (hres : keyOfBytes 160 (H userKey) ≠ rootKey 160 ∧ keyOfBytes 160 (H userKey) ≠ minKey 160 ∧
       keyOfBytes 160 (H userKey) ≠ maxKey 160) :
     let served := storeProofTree Gen.SmtFacts.rootWritesPrefix Gen.SmtFacts.readOnlyReadsPrefix 160 committed
     served = committed ∧
     (S (keyOfBytes 160 (H userKey)) = some (H value) →
-      verifyFixed H H4 160 userKey value true (committed.value H4) (prove H4 served (keyOfBytes 160 (H userKey))) = .accept) ∧
+      verifyFixed strict H H4 160 userKey value true (committed.value H4) (prove H4 served (keyOfBytes 160 (H userKey))) = .accept) ∧
     (S (keyOfBytes 160 (H userKey)) = none →
-      verifyFixed H H4 160 userKey value false (committed.value H4) (prove H4 served (keyOfBytes 160 (H userKey))) = .accept) := by
+      verifyFixed strict H H4 160 userKey value false (committed.value H4) (prove H4 served (keyOfBytes 160 (H userKey))) = .accept) := by
   have hserved : storeProofTree Gen.SmtFacts.rootWritesPrefix Gen.SmtFacts.readOnlyReadsPrefix 160 committed = committed := by
     simp [storeProofTree, store_reads_written_prefix]
   simp only [hserved]
-  exact ⟨trivial, fixed_complete H H4 (by decide) h hs userKey value hres⟩
+  exact ⟨trivial, fixed_complete strict H H4 (by decide) h hs hz userKey value hres⟩
 
 /-- the verifier is a total function without a crash or hang outcome -/
-theorem fixed_never_crashes (H : Bytes → Bytes) (H4 : Bytes → Bytes → Bytes → Bytes → Bytes) (n : Nat) :
-    NeverCrashes (verifyFixed H H4 n) := by
+theorem fixed_never_crashes (strict : Bool) (H : Bytes → Bytes) (H4 : Bytes → Bytes → Bytes → Bytes → Bytes) (n : Nat) :
+    NeverCrashes (verifyFixed strict H H4 n) := by
   intro uk v m root proof
-  exact verifyFixed_no_crash H H4 n uk v m root proof
+  exact verifyFixed_no_crash strict H H4 n uk v m root proof
+
+/-! ## The hash hypothesis is load-bearing: the unframed concatenation
+
+`fixed_sound` assumes `H4Inj H4`. The node hash of the code is `h4 H` — `H` of the UNFRAMED concatenation
+`lk ‖ lv ‖ rk ‖ rv` — for which `H4Inj` cannot hold (C08: `unframed_concatenation_ambiguous`). The gap is real: moving the
+boundary between a proof node's key and value leaves every hash input byte-identical, and a re-split node can be another
+well-formed key. -/
+
+/-- **Tie to the source.** `validNodeKey` bounds the TOTAL number of bits of a proof-node key by the tree's key length
+(`lastBits <= 8 && (size-2)*8+lastBits <= maxBits`, read off store/smt.go statement by statement): a key that swallowed
+value bytes on the right (161..168 bits in the 160-bit tree) is not well formed. `verifyFixed` has exactly this bound
+(`validNodeKey` of the model); weakening it in the source breaks this obligation. -/
+theorem source_validates_total_bits : Gen.SmtFacts.validNodeKeyBoundsTotalBits = true := by decide
+
+/-- whether the source also checks the length of proof-node values (the hardening below); the driver runs the model with
+this flag -/
+def liveStrict : Bool := Gen.SmtFacts.verifyProofChecksValueLength
+
+/-- 24-bit keys, state {0x400103 ↦ [9]}: the honest membership proof of the key, with the boundary of `proof[0]` moved one
+byte to the LEFT (`Key' = [0x40,0x01,0x03]` — the perfectly well-formed 12-bit key `0100 0000 0001` — and
+`Value' = [0x06] ‖ value`), hashes to the same root and is accepted as a proof that the key is ABSENT.
+[`C16:forged-proof-accepted-as-nonmembership`, corpus `resplit-key-value-boundary`] -/
+def resplitKey : Bytes := [0x40, 0x01, 0x03]
+def resplitTree : Trie := insert (keyOfBytes 24 resplitKey) [9] (empty 24)
+def resplitForged : List PNode :=
+  match prove (h4 idH) resplitTree (keyOfBytes 24 resplitKey) with
+  | p0 :: rest => { p0 with key := p0.key.take 3, value := p0.key.drop 3 ++ p0.value } :: rest
+  | [] => []
+
+theorem resplit_forgery_accepted :
+    verifyFixed false idH (h4 idH) 24 resplitKey [] false (resplitTree.value (h4 idH)) resplitForged = .accept
+    ∧ (keyOfBytes 24 resplitKey, [9]) ∈ resplitTree.toList := by decide +kernel
+
+/-- hence, WITHOUT the hash idealisation — with the node hash the code really uses — the verifier without the value-length
+check is not sound -/
+theorem not_sound_with_unframed_hash : ¬ Sound (verifyFixed false idH (h4 idH) 24) idH (h4 idH) 24 := by
+  intro h
+  let ops : List Op := [.set (keyOfBytes 24 resplitKey) [9]]
+  have hv : ∀ op ∈ ops, op.Valid 24 := by
+    intro op hop
+    simp only [ops, List.mem_cons, List.not_mem_nil, or_false] at hop
+    subst hop; exact keyOfBytes_length 24 _
+  have hr := rep_run (n := 24) (by decide) ops (rep_empty (by decide)) (initMap_hasSentinels (by decide)) hv
+  have ht : (empty 24).run ops = resplitTree := rfl
+  rw [ht] at hr
+  have := h resplitTree _ resplitKey [] false resplitForged hr.1 hr.2 resplit_forgery_accepted.1
+  have hS : ((initMap 24).run ops) (keyOfBytes 24 (idH resplitKey)) = some [9] := by decide
+  simp only [hS] at this
+  cases this
+
+/-- the value-length check (`strict`; hardening patch notes/patches/C16-value-length.diff) rejects the re-split proof: with
+values of fixed length the key/value boundary of a node cannot move -/
+theorem strict_rejects_resplit :
+    verifyFixed true idH (h4 idH) 24 resplitKey [] false (resplitTree.value (h4 idH)) resplitForged = .errInvalidProof := by
+  decide +kernel
 
 end Canopy.Smt
